@@ -33,7 +33,7 @@ theorem edges_length (vs : List (Coo ℝ)) : (edges vs).length = vs.length := by
 
 theorem edgesFrom_getElem (left : Coo ℝ) (vs : List (Coo ℝ)) (i : Nat) (hi : i < vs.length) :
     (edgesFrom left vs)[i]'(by rw [edgesFrom_length]; exact hi) =
-      (if h : i = 0 then left else vs[i - 1]'(by omega), vs[i]) := by
+      (if _h : i = 0 then left else vs[i - 1]'(by omega), vs[i]) := by
   induction vs generalizing left i with
   | nil => simp at hi
   | cons v rest ih =>
